@@ -425,8 +425,8 @@ def rule_rows(ctx):
     wfile = dict(re.findall(r'(\w+_writer): create_writer\(\d+, join\(unwrap\(get_one\(a1, "dump-folder"\)\), "(\w+)\.csv\.tmp"\)\)\?', ret))
     ctx.check('rows', 'writer-file-map', wfile == {'block_writer': 'blocks', 'tx_writer': 'transactions', 'txin_writer': 'tx_in', 'txout_writer': 'tx_out'}, nb, 'writers: %s' % wfile)
     tx = 'each(a2.txs)'
-    bh = 'format(new(b"\\u00c0\\u0000", [new_display(a2.header.hash)]))'
-    th = 'format(new(b"\\u00c0\\u0000", [new_display(%s.hash)]))' % tx
+    bh = 'a2.header.hash'
+    th = '%s.hash' % tx
     exp = {
         'blocks': ('Block', ['a2', 'a3'], 0),
         'transactions': ('Hashed<blockchain::proto::tx::EvaluatedTx>', [tx, bh], 1),
